@@ -44,6 +44,7 @@ type Contract struct {
 	ModObj     []*ModObjEntry // object-restricted frame entries: "Type.field@expr"
 	LoopInv    map[int][]*Clause
 	LoopBack   map[int][]*Clause // asserted at every back edge of the loop (end of an iteration), never assumed
+	LoopEntry  map[int][]*Clause // asserted when the loop is entered from outside, never assumed
 	LoopMod    map[int][]string
 	Sites      []*SiteClause
 	Inline     bool
@@ -54,6 +55,7 @@ type Contract struct {
 	File       string
 	Line       int
 	SafeOn     bool
+	SafeProps  []string // `safe C13, C15`: the safety obligations belong to these properties only (default: every property the contract is tagged for)
 	Params     []string // optional explicit parameter names for externals/interfaces
 	Tags       map[string]bool
 	Unroll     map[int]int
@@ -221,7 +223,7 @@ func (e *Engine) LoadContracts(path string, external bool) error {
 		switch {
 		case kw == "func":
 			key := e.qualify(pkg, rest)
-			cur = &Contract{Key: key, Pkg: pkg, LoopInv: map[int][]*Clause{}, LoopBack: map[int][]*Clause{}, LoopMod: map[int][]string{}, External: external,
+			cur = &Contract{Key: key, Pkg: pkg, LoopInv: map[int][]*Clause{}, LoopBack: map[int][]*Clause{}, LoopEntry: map[int][]*Clause{}, LoopMod: map[int][]string{}, External: external,
 				File: rel, Line: rc.line, Tags: map[string]bool{}, Unroll: map[int]int{}}
 			if old, ok := e.contracts[key]; ok {
 				return fmt.Errorf("%s:%d: duplicate contract for %s (first at %s:%d)", rel, rc.line, key, old.File, old.Line)
@@ -364,6 +366,15 @@ func (e *Engine) LoadContracts(path string, external bool) error {
 						cur.Tags[tg] = true
 					}
 					cur.LoopInv[n] = append(cur.LoopInv[n], cl)
+				} else if strings.HasPrefix(rest, "entry") {
+					cl, err := parseClause(strings.TrimSpace(strings.TrimPrefix(rest, "entry")), rel, rc.line)
+					if err != nil {
+						return err
+					}
+					for _, tg := range cl.Tags {
+						cur.Tags[tg] = true
+					}
+					cur.LoopEntry[n] = append(cur.LoopEntry[n], cl)
 				} else if strings.HasPrefix(rest, "backedge") {
 					cl, err := parseClause(strings.TrimSpace(strings.TrimPrefix(rest, "backedge")), rel, rc.line)
 					if err != nil {
@@ -437,6 +448,11 @@ func (e *Engine) LoadContracts(path string, external bool) error {
 				cur.NoVerify = true
 			case kw == "safe":
 				cur.SafeOn = true
+				for _, p := range strings.Split(rest, ",") {
+					if p = strings.TrimSpace(p); p != "" {
+						cur.SafeProps = append(cur.SafeProps, p)
+					}
+				}
 			case kw == "pure":
 				cur.PureResult = true
 			case kw == "params":
